@@ -110,7 +110,14 @@ class Choice:
                 vals = None
             got = self.n - 1
             for i in range(self.n - 1):
-                sh = [(v == i, True) for v in vals] if vals is not None else None
+                if vals is None:
+                    # an independent tag with domain 0..n-1 of which 0..i-1 are excluded on this path:
+                    # both v == i and v != i are feasible by construction
+                    if eng.fork_both(self.v == i):
+                        got = i
+                        break
+                    continue
+                sh = [(v == i, True) for v in vals]
                 if eng.branch(self.v == i, sh):
                     got = i
                     break
